@@ -196,10 +196,7 @@ func lintCheck(r *hx.Rng, n int) (fails []failure, colCases []string, count int)
 			} else {
 				ges = actionlint.ValidatePathGlob(v.pat)
 			}
-			for _, ge := range ges {
-				nwant++
-				// where the property wants the report: at the character the
-				// validator's column designates inside the scalar
+			wantOf := func(ge actionlint.InvalidGlobPattern) int {
 				want := v.col
 				if v.quoted {
 					want++
@@ -207,6 +204,22 @@ func lintCheck(r *hx.Rng, n int) (fails []failure, colCases []string, count int)
 				if ge.Column > 0 {
 					want += ge.Column - 1
 				}
+				return want
+			}
+			// an entry written after an anchor / a tag: do ALL its reports count from the anchor (the
+			// recorded finding) or from the pattern? Decided for the entry as a whole, so that a
+			// shifted report of one character is not taken for the right report of another
+			shifted := v.prop > 0
+			for _, ge := range ges {
+				if len(got[pos{v.line, wantOf(ge) - v.prop}]) == 0 {
+					shifted = false
+				}
+			}
+			for _, ge := range ges {
+				nwant++
+				// where the property wants the report: at the character the
+				// validator's column designates inside the scalar
+				want := wantOf(ge)
 				found := false
 				try := func(exact bool) {
 					for p, ms := range got {
@@ -214,7 +227,7 @@ func lintCheck(r *hx.Rng, n int) (fails []failure, colCases []string, count int)
 							if exact || p.line != v.line {
 								continue
 							}
-						} else if p.line != v.line || (exact && p.col != want && !(v.prop > 0 && p.col == want-v.prop)) {
+						} else if p.line != v.line || (exact && !shifted && p.col != want) || (exact && shifted && p.col != want-v.prop) {
 							continue
 						}
 						for i, m := range ms {
@@ -227,7 +240,7 @@ func lintCheck(r *hx.Rng, n int) (fails []failure, colCases []string, count int)
 								// observed position of this diagnostic
 								// (the model takes the position of the NODE, which yaml.v3 puts at the anchor / tag)
 								colCases = append(colCases, fmt.Sprintf("((%d%%N, %s, %d%%N), [[%d]]%%N)", v.col-v.prop, hx.CoqBool(v.quoted), ge.Column, p.col))
-								if v.prop > 0 && p.col == want-v.prop {
+								if shifted && p.col == want-v.prop {
 									propShift = fmt.Sprintf("line %d: %q reported at column %d, the designated character is at column %d: the column counts from the anchor / tag written before the pattern", v.line, ge.Message, p.col, want)
 									ms[i] = ""
 									found = true
